@@ -407,7 +407,11 @@ def distance_wei_floyd(adjacency, transform=None):
     for k in range(n):
         i2k_k2j = np.repeat(SPL[:, [k]], n, 1) + np.repeat(SPL[[k], :], n, 0)
 
-        path = SPL > i2k_k2j
+        # a detour counts as shorter only beyond rounding error: otherwise paths that
+        # tie exactly (e.g. under the log transform) are 'improved' by one ulp for some
+        # pairs and not for others, which leaves hops and Pmat out of step
+        path = np.logical_and(SPL > i2k_k2j,
+                              np.logical_not(np.isclose(SPL, i2k_k2j, rtol=1e-12, atol=0)))
         i, j = np.where(path)
         hops[path] = hops[i, k] + hops[k, j]
         Pmat[path] = Pmat[i, k]
